@@ -631,8 +631,12 @@ class World(object):
         elif shape == 1:
             fn = lambda r: conn.proto.subscribe((topics[0][0], topics[0][1]))  # noqa: E731
         else:
-            fn = lambda r: conn.proto.subscribe(list(topics))  # noqa: E731
+            given = list(topics)
+            fn = lambda r: conn.proto.subscribe(given)  # noqa: E731
         self.api(conn, "subscribe", args, fn)
+        if shape not in (0, 1):
+            # the list belongs to the application, which goes on using it: what was asked is what it held at call time
+            given[:] = [("changed/afterwards", 0)] * (len(given) + 1)
 
     def op_unsubscribe(self, a, shape, n=1, variant=0):
         conn = self.api_conn(a)
@@ -648,8 +652,11 @@ class World(object):
         if shape == 0:
             fn = lambda r: conn.proto.unsubscribe(topics[0])  # noqa: E731
         else:
-            fn = lambda r: conn.proto.unsubscribe(list(topics))  # noqa: E731
+            given = list(topics)
+            fn = lambda r: conn.proto.unsubscribe(given)  # noqa: E731
         self.api(conn, "unsubscribe", args, fn)
+        if shape != 0:
+            given[:] = ["changed/afterwards"] * (len(given) + 1)
 
     def op_disconnect(self, a):
         conn = self.api_conn(a)
